@@ -201,6 +201,16 @@ func (t *Input) reflectSetKey(rv reflect.Value, key string, v interface{}) (err 
 
 func (t *Input) reflectSet(rv reflect.Value, v interface{}) (err error) {
 	if rv.CanSet() {
+		if v == nil {
+			// A null, there is no type to look at. It can be set on
+			// something that can be nil only.
+			switch rv.Kind() {
+			case reflect.Ptr, reflect.Slice, reflect.Map, reflect.Interface:
+				rv.Set(reflect.Zero(rv.Type()))
+				return
+			}
+			return fmt.Errorf("can not coerce null into a %s", rv.Kind())
+		}
 		vv := reflect.ValueOf(v)
 		vt := vv.Type()
 		if vt.AssignableTo(rv.Type()) {
